@@ -92,6 +92,9 @@ def generate(rng, hostile=False, regimes=("lf", "crlf", "cr", "mixed"), max_file
     fill = FILL_PLAIN + (FILL_HOSTILE if hostile else [])
     n_files = rng.randrange(1, max_files + 1)
     names = ["README.md", "src/pkg/__init__.py", "setup.py", "docs/conf.py", "CHANGES.txt"][:n_files]
+    if rng.random() < 0.2:
+        # names that start with a dot, at the top level and as a directory
+        names = [{"setup.py": ".version", "docs/conf.py": ".github/workflows/ci.yml", "README.md": ".release-notes.md"}.get(x, x) for x in names]
     for fi, name in enumerate(names):
         raws = rng.sample(RAW_FULL, rng.randrange(1, max_pats + 1))
         partial_cands = [c for part, cands in RAW_PARTIAL.items() if part in lay.vp for c in cands]
@@ -195,7 +198,7 @@ def generate(rng, hostile=False, regimes=("lf", "crlf", "cr", "mixed"), max_file
         else:
             lay.entries.append((key, list(raws)))
     if not legacy and rng.random() < cfgformats:
-        lay.cfg_format = rng.choice(["setup.cfg", "pyproject.toml", "setup.cfg", "pyproject.toml", "pycalver.toml"])      # pycalver.toml with a [pycalver] section: written by the tool's predecessor
+        lay.cfg_format = rng.choice(["setup.cfg", "pyproject.toml", "setup.cfg", "pyproject.toml", "pycalver.toml", ".bumpver.toml"])      # pycalver.toml with a [pycalver] section: written by the tool's predecessor
         lay.cfg_variant = rng.randrange(3)
     lay.cfg_glob = (not legacy) and rng.random() < 0.12
     lay.cfg_crlf = rng.random() < 0.15
